@@ -303,8 +303,8 @@ theorem runner_from_pipeline (cfg : Cfg) (pre : List Ev) (sid : Nat) (ps : List 
   · rename_i cid now ps' hget
     simp only [Option.map_eq_some_iff, Prod.mk.injEq] at h
     obtain ⟨R', hm, rfl, rfl⟩ := h
-    obtain ⟨out, order, hord, hds, hR⟩ := C13.modelCall_explains _ _ _ _ _ _ hm
-    rw [hR, C13.parallelCheck_ret _ _ _ _ _ _ hord] at hr
+    obtain ⟨out, order, k, hk, _, hord, hds, hR⟩ := C13.modelCall_explains _ _ _ _ _ _ _ hm
+    rw [hR, C13.parallelCheck_ret _ _ _ _ _ _ k hk hord] at hr
     split at hr
     · simp at hr
     · simp only [List.mem_append] at hr
